@@ -209,10 +209,12 @@ theorem FmInv_pitch {α} (A : Arith α) (st st' : State) (id : Nat) (tag : List 
         · exact key _ _ _ h
     · cases h
     · cases h
+    · cases h
     · split at h
       · split at h
         · cases h
         · exact key _ _ _ h
+      · cases h
       · cases h
       · cases h
 
